@@ -8,6 +8,10 @@ the text, y, height, first-glyph x and content width of every line box must be t
 laid out a second time under the go-text engine.
 Variants: a paragraph of the same font with another line-height earlier in the document (line heights must not leak through
 caches); a page two lines high (the paragraph continues on following pages: text-indent only on the very first line).
+Vertical part (spec/LineHeight.tla): the aligned subtrees of a line (CSS 2.1 10.8) measured through a worklist that grows
+while it is walked; invariants AllDiscovered, ContentsFit, liveness Terminates; the height of the line box, the stacking of
+the next line, the containment of every inline-block in its line box and the positions CSS defines are compared with the
+real layout.
 """
 import os
 from vlib import MachineryError
@@ -18,6 +22,15 @@ CFG = """CONSTANTS
 SPECIFICATION Spec
 INVARIANTS Conservation FitsWidth Greedy CutOnlyIfNeeded Emit
 PROPERTIES Terminates
+CHECK_DEADLOCK FALSE
+"""
+
+
+VCFG = """CONSTANTS
+  MaxChains = %d
+%s
+INVARIANTS AllDiscovered ContentsFit Emit
+%s
 CHECK_DEADLOCK FALSE
 """
 
@@ -48,11 +61,37 @@ def run(ctx):
             raise MachineryError("harness processed %d of %d paragraphs (%s)" % (c.get("scenarios", 0), n, engine))
         counts[engine] = n
         nontrivial += c.get("nontrivial", 0)
+    # vertical part: line box heights under vertical-align baseline / top / bottom (spec/LineHeight.tla)
+    if thorough:
+        vres = ctx.tlc("LineHeight", None, workers=8, cfg_text=VCFG % (3, "INIT Init\nNEXT Next", ""), simulate="num=4000", depth=12, timeout=3000)
+        vscn3, vcnt3, _ = ctx.scenario_lines(vres)
+    vres = ctx.tlc("LineHeight", None, workers=8, cfg_text=VCFG % (2, "SPECIFICATION Spec", "PROPERTIES Terminates"), timeout=3000)
+    vscn, vcnt, vfirst = ctx.scenario_lines(vres)
+    if vcnt == 0:
+        raise MachineryError("no line generated (LineHeight)")
+    ctx.samples.extend(vfirst[-1:])
+    if thorough:
+        with open(vscn, "a") as f:
+            f.write("".join(sorted(set(open(vscn3)))))
+    vlines = sorted(set(open(vscn)))
+    open(vscn, "w").write("".join(vlines))
+    ver = os.path.join(ctx.scratch, "ver_v.ndjson")
+    ctx.vdrive(["c11v", "-in", vscn, "-out", ver])
+    summ = ctx.consume_verdicts(ver)
+    c = summ.get("counts", {})
+    if c.get("scenarios", 0) != len(vlines):
+        raise MachineryError("harness processed %d of %d lines (vertical)" % (c.get("scenarios", 0), len(vlines)))
+    if c.get("nontrivial", 0) == 0:
+        raise MachineryError("no line with a top / bottom aligned subtree")
+    counts["vertical-align"] = len(vlines)
+    nontrivial += c.get("nontrivial", 0)
     ctx.traces = sum(counts.values())
     return ctx.finish("model_checking", {
         "exhaustive": True, "evaluations": sum(counts.values()), "distinct_nontrivial": nontrivial, "paragraphs_per_engine": counts,
         "rule": "every word-length sequence of <= MaxWords words (lengths 1..3) x width 1..MaxW em x {left, right, center, justify} x text-indent {0, 2em}; "
-                "nowrap and pre-line with a line feed after word 1 or 2; an inline box with 1em padding around words 2..k; non-trivial = more than one line",
+                "nowrap and pre-line with a line feed after word 1 or 2; an inline box with 1em padding around words 2..k; an inline box starting inside a word; "
+                "non-trivial = more than one line. Vertical: every line of <= 2 chains span > span > inline-block (heights 4, 20, 40px) x vertical-align "
+                "{baseline, top, bottom} on every box (thorough: + sampled lines of 3 chains): height of the line box, stacking, boxes inside the line, positions",
     }, assumptions=[
         "left-to-right, metric-exact test font (every glyph 1em), no hyphenation, letter/word spacing, floats or inline-blocks",
         "go-text engine: plain paragraphs only (it is compared with 0.05px tolerance)",
